@@ -191,7 +191,7 @@ def execute(calls, cfg, lab, rng_seed, flags=()):
             cmds.append({"cmd": "sites"})
         reps = run_worker(cmds, cfg, lab, flags)
         if want_sites:
-            sites = reps.pop()["sites"]
+            sites = reps.pop()
         for r in reps:
             out.setdefault(r["id"], []).append(r)
     else:
@@ -321,7 +321,7 @@ CLASSES = {"default_repr_of_constraint_chain": default_repr_of_constraint_chain}
 
 def configs_for(ctx, locs):
     """The matrix.  quick: 6 configurations chosen to pairwise-cover seeds x cwds x locales x modes;
-    quick with a broken tie / changed fingerprint: 24 (every seed x cwd x mode, locales alternating);
+    quick with a broken tie / changed fingerprint: 24 (every seed x cwd pair, modes and locales rotating);
     thorough: the full matrix seeds x cwds x locales x modes."""
     full = [{"seed": s, "cwd": c, "locale": l, "mode": m, "home": (i + j) % 2}
             for i, s in enumerate(SEEDS) for j, c in enumerate(CWDS) for l in locs for m in MODES]
@@ -333,14 +333,15 @@ def configs_for(ctx, locs):
         random.Random(606).shuffle(full)       # a diverse first wave; the order is fixed
         return full
     if ctx.widen > 1:
-        sub, k = [], 0
+        sub, idx = [], 0
         for i, s in enumerate(SEEDS):
             for j, c in enumerate(CWDS):
-                for m in MODES:
-                    k += 1
-                    sub.append({"seed": s, "cwd": c, "locale": locs[k % len(locs)], "mode": m, "home": (i + j) % 2, "batch": 25})
-        # modes differ most: run one of each first so that a failure is found in the first wave
-        sub.sort(key=lambda c: (SEEDS.index(c["seed"]) + CWDS.index(c["cwd"])) % 4)
+                for m in [MODES[idx % 3]] + ([MODES[(idx + 1) % 3]] if (i + j) % 2 == 0 else []):
+                    sub.append({"seed": s, "cwd": c, "locale": locs[(idx + len(sub)) % len(locs)], "mode": m, "home": (i + j) % 2, "batch": 25})
+                idx += 1
+        # a diverse first wave (all modes, several seeds and cwds); the order is fixed
+        import random
+        random.Random(607).shuffle(sub)
         return sub
     return [{"seed": "1", "cwd": "root", "locale": "C", "mode": "long", "home": 1},
             {"seed": "4242", "cwd": "decoy", "locale": locs[-1], "mode": "gather", "home": 0},
@@ -376,7 +377,8 @@ def run(ctx: vlib.Ctx):
 
     lab = Lab()
     try:
-        _run(ctx, drv, lab, ts_keys)
+        if not (ctx.replay and replay(ctx, lab, ts_keys)):
+            _run(ctx, drv, lab, ts_keys)
     finally:
         lab.close()
     ctx.trusted = ["Lean 4.33.0 kernel; axioms per theorem in coverage.theorems",
@@ -406,7 +408,7 @@ def _run(ctx, drv, lab, ts_keys):
         t0 = time.time()
     locs = locales()
     ctx.extra["locales"] = locs
-    n = (2400 if ctx.widen > 1 else 2000) if ctx.thorough else (800 if ctx.widen > 1 else 200)
+    n = (2400 if ctx.widen > 1 else 2000) if ctx.thorough else (400 if ctx.widen > 1 else 200)
     resources = []
     for p in sorted((vlib.SRC / "octave_mcp").rglob("*.oct.md")):
         if p.stat().st_size < 7000:
@@ -438,7 +440,11 @@ def _run(ctx, drv, lab, ts_keys):
 
     lap("known-findings")
     # ---- reference run: a fresh process for every call ---------------------------------------------------
-    ref, _ = execute(calls, ref_cfg, lab, 0)
+    # (beyond the first 120 calls the reference uses batches of 4: "a fresh process per call or per small batch")
+    ref, _ = execute(calls[:120], ref_cfg, lab, 0)
+    if len(calls) > 120:
+        more, _ = execute(calls[120:], dict(ref_cfg, batch=4), lab, 0)
+        ref.update(more)
     ref_view = {}
     kf_paths = {}
     for c in calls:
@@ -477,7 +483,7 @@ def _run(ctx, drv, lab, ts_keys):
         flags = ("--snap",) if cfg["mode"] != "fresh" else ()
         return cfg, execute(calls, cfg, lab, f"{ctx.seed}-{i}", flags)[0]
     # waves: once a wave has produced a failing input there is nothing more to learn from further configurations
-    wave = 6 if not (ctx.thorough or ctx.widen > 1) else 12
+    wave = 12 if ctx.thorough else 6
     todo = list(enumerate(cfgs))
     ran, n0 = 0, len(ctx.failures)
     while todo and len(ctx.failures) == n0:
@@ -504,16 +510,26 @@ def _run(ctx, drv, lab, ts_keys):
     # ---- correspondence 2: every iteration over a set object that really happens is known to the analysis --------------
     icfg = {"seed": "random", "cwd": "decoy", "locale": "C", "mode": "long", "home": 0}
     sub = calls if (ctx.thorough or ctx.widen > 1) else calls[: max(60, len(calls) // 2)]
-    iout, sites = execute(sub, icfg, lab, f"{ctx.seed}-instr", ("--instrument",))
-    set_sites = [s for s in (sites or []) if s[4] > 0]
-    ctx.extra["instrumented_sites_seen"] = len(sites or [])
+    iout, mon = execute(sub, icfg, lab, f"{ctx.seed}-instr", ("--instrument",))
+    sites = (mon or {}).get("sites") or []
+    envsites = (mon or {}).get("envsites") or []
+    set_sites = [s for s in sites if s[4] > 0]
+    ctx.extra["instrumented_sites_seen"] = len(sites)
     ctx.extra["instrumented_set_iterations"] = [s[:4] + [s[4]] for s in set_sites]
     reps = drv.batch([{"op": "set_site", "file": s[0], "func": s[1], "expr": s[2]} for s in set_sites])
     for s, rep in zip(set_sites, reps):
         ctx.count("dynamic-set-iteration:" + rep["known"])
-        if rep["known"] == "unknown" and s[3] not in ("str", "repr", "dict", "next"):
+        if rep["known"] == "unknown":
             ctx.corr_disagreements.append({"case": {"site": s[:4], "times": s[4]}, "model": "not among Gen.unorderedSetIterations / orderInsensitiveSetIterations",
-                                           "impl": "a set/frozenset object was iterated here", "view": "set-typed iteration sites"})
+                                           "impl": "a set/frozenset object was consumed here", "view": "set-typed iteration sites"})
+    # ---- correspondence 3: every environment-reading callable that is really called is listed in the summary ------------
+    ctx.extra["instrumented_env_reads"] = envsites
+    reps = drv.batch([{"op": "env_read", "file": e[0], "func": e[1], "kind": e[2]} for e in envsites])
+    for e, rep in zip(envsites, reps):
+        ctx.count("dynamic-env-read:" + e[2] + ":" + ("listed" if rep["listed"] else "UNLISTED"))
+        if not rep["listed"]:
+            ctx.corr_disagreements.append({"case": {"site": e[:3], "times": e[3]}, "model": "Gen.envReads has no such read in this function",
+                                           "impl": f"a callable that reads the environment ({e[2]}) was called here", "view": "environment reads"})
     for c in sub:     # the instrumented code must behave like the plain code
         for rep in iout[c["id"]]:
             paths = kf_paths[c["id"]]
@@ -554,6 +570,47 @@ def compare_cfg(ctx, cfg, out, calls, ref, ref_view, kf_paths, ts_keys, state_ch
             for ch in rep.get("changed") or []:
                 state_changes.setdefault((ch["file"], ch["owner"], ch["name"]), []).append((c["id"], name))
     ctx.count("cfg-mode:" + cfg["mode"])
+
+
+def replay(ctx, lab, ts_keys):
+    """--replay f : re-execute exactly the failing call of f on the current tree — once in the reference
+    configuration (fresh process) and once in the recorded configuration (for the long-lived / gather modes
+    together with 200 other calls regenerated from the recorded seed)."""
+    import random
+    data = json.loads(Path(ctx.replay).read_text())
+    case, cfg = data.get("case"), data.get("configuration")
+    if not (isinstance(case, dict) and "tool" in case and isinstance(cfg, dict)):
+        ctx.notes.append("replay file holds no failing call (tie-broken): running the full check instead")
+        return False
+    case = dict(case, id=500000)
+    others = [dict(strip_call(c), id=c["id"] + 1) for c in
+              effects_calls.gen_calls(random.Random(f"c06-{data.get('seed', 0)}"), 200, [], {"ref": lab.frozen_ref, "text": FROZEN_TEXT})]
+    ref_cfg = {"seed": "0", "cwd": "repo", "locale": "C.UTF-8", "mode": "fresh", "batch": 1, "home": 0}
+    paths = default_repr_of_constraint_chain(case)
+    msk = f36_mask(paths) if paths else None
+    want = view(run_worker([{"cmd": "call", "call": case}], ref_cfg, lab)[0], ts_keys, msk)
+    rng = random.Random(f"replay-{data.get('seed', 0)}")
+    if cfg["mode"] == "fresh":
+        reps = run_worker([{"cmd": "call", "call": case}], cfg, lab)
+    elif cfg["mode"] == "long":
+        a, b = list(others), list(others)
+        rng.shuffle(a)
+        rng.shuffle(b)
+        cmds = [{"cmd": "call", "call": c} for c in a] + [{"cmd": "call", "call": case}] + [{"cmd": "call", "call": c} for c in b] + [{"cmd": "call", "call": case}]
+        reps = [r for r in run_worker(cmds, cfg, lab) if r["id"] == case["id"]]
+    else:
+        chunk = others[:24] + [case]
+        rng.shuffle(chunk)
+        reps = [r for r in run_worker([{"cmd": "gather", "calls": chunk}], cfg, lab) if r["id"] == case["id"]]
+    for k, rep in enumerate(reps):
+        got = view(rep, ts_keys, msk)
+        ctx.case({"replay": ctx.replay, "pass": k})
+        if got != want:
+            ctx.failures.append({"case": strip_call(case), "why_class": f"differs:{case['tool']}:{cfg['mode']}",
+                                 "why": f"(replay) masked envelope differs between the reference configuration and {cfg_name(cfg)}",
+                                 "configuration": cfg, "reference": want[:3000], "observed": got[:3000], "first_difference": first_diff(want, got)})
+    ctx.notes.append(f"replayed {ctx.replay}: {'still fails' if ctx.failures else 'no longer fails'}")
+    return True
 
 
 def first_diff(a, b):
